@@ -269,6 +269,7 @@ MEMORY_BLOCKS_MUTATORS = {
     ("linux::sections::thread_list_stream::write", "push"): "the instruction-pointer window (C07/ip-window)",
     ("linux::sections::app_memory::write", "push"): "one descriptor per application region (C07/desc-copy)",
     ("linux::minidump_writer::MinidumpWriter::dump", "clear"): "per-dump reset (C19)",
+    ("linux::minidump_writer::MinidumpWriter::dump", "store"): "per-dump reset by assigning a fresh list (C19)",
 }
 
 
